@@ -22,6 +22,9 @@ pub struct Case {
     pub data: Data,
     pub qs: Vec<f64>,
     pub xs_rel: Vec<f64>,
+    /// all values are multiplied by 10^scale_exp
+    #[serde(default)]
+    pub scale_exp: i8,
 }
 
 pub fn materialise(d: &Data) -> Vec<(f64, f64)> {
@@ -75,7 +78,8 @@ impl Check for C15 {
         "shape"
     }
     fn eval(&self, c: &Case) -> Verdict {
-        let data: Vec<(f64, f64)> = materialise(&c.data).into_iter().filter(|&(x, w)| x.is_finite() && w.is_finite() && w >= 0.0 && (x * w).is_finite() && (w == 0.0 || (x == 0.0 || (x * w).abs() >= 1e-290))).collect();
+        let unit = 10f64.powi(c.scale_exp as i32);
+        let data: Vec<(f64, f64)> = materialise(&c.data).into_iter().map(|(x, w)| (x * unit, w)).filter(|&(x, w)| x.is_finite() && w.is_finite() && w >= 0.0 && (x * w).is_finite() && (w == 0.0 || (x == 0.0 || (x * w).abs() >= 1e-290))).collect();
         let d = match catch(|| build(c.scale, c.delta, c.backlog, &data)) {
             Ok(d) => d,
             Err(p) => return fail(panic_sig(&p), format!("insert panicked: {}", p)),
@@ -217,6 +221,7 @@ impl Check for C15 {
             .class_if(fused, "fused_centroids")
             .class_if(last_below_max, "last_centroid_below_max")
             .class_if(wmin != 1.0 || total != nf, "weighted")
+            .class_if(c.scale_exp != 0, "rescaled_values")
             .class_if(matches!(c.data, Data::Ties { .. }), "heavy_ties");
         info.inner_evals = (qs.len() + xs.len()) as u64;
         Verdict::Pass(info)
@@ -249,8 +254,23 @@ fn strategy(tier: Tier) -> BoxedStrategy<Case> {
         4 => (nsmall.clone(), 1u32..12, lo.clone(), span.clone(), any::<u64>(), any::<bool>()).prop_map(|(n, levels, lo, span, seed, weighted)| Data::Ties { n, levels, lo, span, seed, weighted }),
         3 => (nsmall, lo, span, any::<u64>(), any::<bool>()).prop_map(|(n, lo, span, seed, weighted)| Data::Uniform { n, lo, span, seed, weighted }),
     ];
-    (scale(), delta_strategy(), backlog_strategy(), data, prop::collection::vec(0.0f64..=1.0, 0..6), prop::collection::vec(-0.1f64..1.1, 0..6))
-        .prop_map(|(scale, delta, backlog, data, qs, xs_rel)| Case { scale, delta, backlog, data, qs, xs_rel })
+    let scale_exp = prop_oneof![4 => Just(0i8), 1 => -30i8..=30, 1 => prop_oneof![Just(-19i8), Just(-25), Just(20)]];
+    // rarely a delta far larger than n (nothing is ever fused); n is then capped, since every insert
+    // with a small backlog re-sorts all centroids
+    let delta = prop_oneof![24 => delta_strategy(), 1 => prop_oneof![Just(1e4f64), Just(1e5)]];
+    (scale(), delta, backlog_strategy(), data, prop::collection::vec(0.0f64..=1.0, 0..6), prop::collection::vec(-0.1f64..1.1, 0..6), scale_exp)
+        .prop_map(|(scale, delta, backlog, data, qs, xs_rel, scale_exp)| {
+            let data = if delta > 1000.0 {
+                match data {
+                    Data::Ties { n, levels, lo, span, seed, weighted } => Data::Ties { n: n.min(1500), levels, lo, span, seed, weighted },
+                    Data::Uniform { n, lo, span, seed, weighted } => Data::Uniform { n: n.min(1500), lo, span, seed, weighted },
+                    d => d,
+                }
+            } else {
+                data
+            };
+            Case { scale, delta, backlog, data, qs, xs_rel, scale_exp }
+        })
         .boxed()
 }
 
@@ -259,7 +279,7 @@ pub fn checks() -> Vec<Box<dyn DynCheck>> {
 }
 
 pub fn run(ctx: &Ctx) {
-    ctx.set_rule("generated: scale in K0..K3, delta in (1, 1000], backlog 0..1000, n in 1..=2000 (50000 thorough), data = explicit (value, weight) lists / heavy ties over few levels / uniform, ranges 1e-3..1e12, unit weights or weights over 1e-6..1e6; q on a 101-point grid + generated + neighbours of 0 and 1; x on a grid over [min-1, max+1] + data points + {min, max, +-inf}. Oracle: quantile non-decreasing, within [min,max], = min at 0, = max at 1; cdf non-decreasing, in [0,1], 0 below min, 1 from max upward; inverse consistency both ways (cdf(x+tol) >= q for x = quantile(q); quantile(cdf(x-tol)) <= x+tol); repeated reads bit-identical; empty digest NaN / 0; no panic (debug assertions on). tol = 16 ulps of the data range x total/smallest weight. Non-trivial: n_centroids >= 2, some centroid has weight > 1 (fusion happened) and the last centroid's mean is below max. Distinct = hash of the case.");
+    ctx.set_rule("generated: scale in K0..K3, delta in (1, 1000] (rarely 1e4, 1e5), backlog 0..1000, n in 1..=2000 (50000 thorough), data = explicit (value, weight) lists / heavy ties over few levels / uniform, ranges 1e-3..1e12 (a third of the cases multiplied by 10^e, e in -30..=30), unit weights or weights over 1e-6..1e6; q on a 101-point grid + generated + neighbours of 0 and 1; x on a grid over [min-1, max+1] + data points + {min, max, +-inf}. Oracle: quantile non-decreasing, within [min,max], = min at 0, = max at 1; cdf non-decreasing, in [0,1], 0 below min, 1 from max upward; inverse consistency both ways (cdf(x+tol) >= q for x = quantile(q); quantile(cdf(x-tol)) <= x+tol); repeated reads bit-identical; empty digest NaN / 0; no panic (debug assertions on). tol = 16 ulps of the data range x total/smallest weight. Non-trivial: n_centroids >= 2, some centroid has weight > 1 (fusion happened) and the last centroid's mean is below max. Distinct = hash of the case.");
     ctx.assume("values with |x*w| finite and normal, as the constructor's documented domain (finite x, finite w >= 0)");
     ctx.run_regressions(&[&C15]);
     let t = ctx.tier;
